@@ -59,7 +59,13 @@ def _fields(x):
                     pass
     d = getattr(x, "__dict__", None)
     if d:
+        cls = type(x)
         for k, v in d.items():
+            # an instance attribute that shadows a class-level descriptor (functools.cached_property and home-made
+            # equivalents store the computed value under the property's own name) is a memo, not part of the value
+            ca = getattr(cls, k, None) if isinstance(k, str) else None
+            if ca is not None and hasattr(type(ca), "__get__") and not isinstance(ca, (staticmethod, classmethod)) and not callable(ca):
+                continue
             out[k] = v
     return out
 
